@@ -28,3 +28,67 @@ Print Assumptions C14_decode_none.
 Theorem C14_decode_total : forall e, exists r, decode_ctcp e = Ok r.
 Proof. exact decode_total. Qed.
 Print Assumptions C14_decode_total.
+
+(* "Anything not delimited by 0x01 on both ends or with an invalid command is not CTCP":
+   the listed causes (parameter count, IRC command, length < 3, first byte, last byte, empty
+   command part, a byte outside A-Z/0-9 in the command part) are exactly the events
+   DecodeCTCP rejects. *)
+Theorem C14_not_ctcp : forall e, not_ctcp_cause e <-> decode_ctcp e = Ok None.
+Proof. exact not_ctcp_exact. Qed.
+Print Assumptions C14_not_ctcp.
+
+(* The reply discipline, default handler table, any environment (Config.Version/Name, runtime
+   texts, clock): for every event the CTCP stage of RunHandlers writes at most one event, and
+   if it writes one then the event was a PRIVMSG that decodes as CTCP, has a source, is not
+   ACTION, has a default replier or else a source that is a valid nickname; the output is a
+   source-less NOTICE to the folded nickname of the requester carrying a CTCP payload. *)
+Theorem C14_replies : forall v e outs, connected v = true ->
+  ctcp_stage (default_table v) e = Ok outs ->
+  (length outs <= 1)%nat /\
+  forall o, In o outs ->
+    ev_command e = PRIVMSG /\
+    exists c name, decode_ctcp e = Ok (Some c) /\ ev_source e = Some name /\
+      c_command c <> CTCP_ACTION /\
+      (known_query (c_command c) \/ is_valid_nick (to_rfc1459 name) = true) /\
+      is_answer_to name o.
+Proof. exact stage_discipline. Qed.
+Print Assumptions C14_replies.
+
+(* ... and exactly which answer: the stage's output is the one the relation `answers` of
+   Spec/CtcpSpec.v determines (known query -> its reply text; unknown, not ACTION, valid nick
+   -> ERRMSG; otherwise nothing). *)
+Theorem C14_replies_exact : forall v e outs, connected v = true ->
+  (ctcp_stage (default_table v) e = Ok outs <-> answers v e outs).
+Proof. exact stage_exact. Qed.
+Print Assumptions C14_replies_exact.
+
+(* Never in response to a NOTICE - connected or not. *)
+Theorem C14_notice_silent : forall v e, ev_command e = NOTICE -> ctcp_stage (default_table v) e = Ok [].
+Proof. exact notice_silent. Qed.
+Print Assumptions C14_notice_silent.
+
+(* Two clients can never drive each other into a reply loop: the stage applied to anything
+   that carries the command of one of its own outputs - with any source, any parameters, in
+   any environment - yields nothing. *)
+Theorem C14_no_loop : forall v e outs o, connected v = true ->
+  ctcp_stage (default_table v) e = Ok outs -> In o outs ->
+  forall v' src params, ctcp_stage (default_table v') (mk_event src (ev_command o) params) = Ok [].
+Proof. exact no_loop. Qed.
+Print Assumptions C14_no_loop.
+
+(* The stage cannot panic on a connected client (no nil source dereference, no empty CTCP
+   type handed to SendCTCPReply, no index out of range) ... *)
+Theorem C14_never_panics : forall v e, connected v = true ->
+  exists outs, ctcp_stage (default_table v) e = Ok outs.
+Proof. exact stage_total. Qed.
+Print Assumptions C14_never_panics.
+
+(* ... and the one panic the current code has is characterised exactly: a FINGER request with
+   a source handled while client.conn is nil (handleCTCPFinger reads client.conn.lastActive;
+   DESIGN.md findings row 21). *)
+Theorem C14_panic_exact : forall v e,
+  ctcp_stage (default_table v) e = Panic <->
+  connected v = false /\ ev_command e = PRIVMSG /\
+  exists c name, ctcp_message e c /\ c_command c = CTCP_FINGER /\ ev_source e = Some name.
+Proof. exact stage_panic_iff. Qed.
+Print Assumptions C14_panic_exact.
